@@ -93,8 +93,8 @@ func fieldsOf(sc *formula.SourceCode) string {
 
 var c08Pure = core.Mon(c08, "repeat-and-interleave", func(w *core.W, c *PureCase) {
 	w.Eval(1)
-	sc, err := formula.ParseSourceCode([]byte(c.Src))
-	sc2, err2 := formula.ParseSourceCode([]byte(c.Src))
+	sc, err := hostParse([]byte(c.Src), true)
+	sc2, err2 := hostParse([]byte(c.Src), true)
 	if (err == nil) != (err2 == nil) || (err != nil && err.Error() != err2.Error()) {
 		w.Violation("repeat-and-interleave", "C08/parse-outcome-differs", c, fmt.Sprint(err), fmt.Sprint(err2), "parsing the same text twice gave different outcomes: "+fmt.Sprintf("%q", clipS(c.Src, 120)))
 		return
@@ -134,7 +134,7 @@ var c08Pure = core.Mon(c08, "repeat-and-interleave", func(w *core.W, c *PureCase
 				continue
 			}
 			w.Count("foreign_operations")
-			fsc, ferr := formula.ParseSourceCode([]byte(fs))
+			fsc, ferr := hostParse([]byte(fs), true)
 			if ferr == nil {
 				evalTree(fsc, c.FData)
 				fieldsOf(fsc)
@@ -158,7 +158,7 @@ var c08Pure = core.Mon(c08, "repeat-and-interleave", func(w *core.W, c *PureCase
 		}
 		// a fresh parse in this history still gives the same tree
 		if rep == c.Reps-1 {
-			sc3, err3 := formula.ParseSourceCode([]byte(c.Src))
+			sc3, err3 := hostParse([]byte(c.Src), true)
 			if err3 != nil || obs.FullDump(sc3) != d0 {
 				w.Violation("repeat-and-interleave", "C08/parse-depends-on-history", c, "same tree", fmt.Sprint(err3), c.Src)
 				return
@@ -230,7 +230,7 @@ func orderOutcomes(list []EvalCase, order []int, beat func()) []string {
 		if beat != nil && k%64 == 0 {
 			beat()
 		}
-		sc, err := formula.ParseSourceCode([]byte(list[i].Src))
+		sc, err := hostParse([]byte(list[i].Src), true)
 		if err != nil {
 			out[i] = "PARSE " + err.Error()
 			continue
